@@ -986,6 +986,9 @@ class CallMixin:
             lo = self.mk("ListOf", (recv.args[1],), None, site)
             lo.extra = {"bag": recv}
             return lo
+        if name == "searchsorted" and pos and "sorter" not in kw and self._is_numpy_array(recv):
+            # a.searchsorted(v, side) is numpy.searchsorted(a, v, side): one spelling for the rules
+            return self.call_ext(self.ext("numpy.searchsorted", site), [recv] + list(pos), kw, st, fr, site)
         lib_init = False
         if recv.op == "Super" and name == "__init__":
             inst = recv.args[0]
@@ -1402,6 +1405,25 @@ class CallMixin:
             if a is not None and a == b:
                 return a
         return None
+
+    def _is_numpy_array(self, v: Node, depth=0) -> bool:
+        """v is known to be an ndarray: built by a numpy array constructor (possibly sliced / copied), or an array input"""
+        if depth > 4:
+            return False
+        if v.op == "Input":
+            return bool(v.extra and v.extra.get("kind") == "array")
+        if v.op == "Call" and v.args and v.args[0].op == "Ext":
+            sh_ = X.np_short(v.args[0].attr)
+            return sh_ in ("linspace", "arange", "array", "asarray", "zeros", "ones", "empty", "full", "logspace",
+                           "geomspace", "copy", "ascontiguousarray", "sort", "cumsum", "concatenate", "flip",
+                           "zeros_like", "ones_like", "empty_like", "full_like", "negative", "log10", "log")
+        if v.op == "Subscript" and v.args[1].op == "Slice":
+            return self._is_numpy_array(v.args[0], depth + 1)
+        if v.op == "UnaryOp" and v.attr == "USub":
+            return self._is_numpy_array(v.args[0], depth + 1)
+        if v.op == "MCall" and v.attr[0] in ("copy", "astype", "ravel", "flatten") and v.args:
+            return self._is_numpy_array(v.args[0], depth + 1)
+        return False
 
     def fold_isinstance(self, v: Node, t: Node) -> Optional[bool]:
         if t.op == "Tuple":
